@@ -452,10 +452,12 @@ theorem replayOne_disk_raised (r : WalRec) (s : Store) : DiskSame (lsnRaised r s
             · exact h1
             · exact h1
         · split
-          · split <;> exact h1
           · split
-            · exact h1
-            · exact h1
+            · split <;> exact h1
+            · split
+              · exact h1
+              · exact h1
+          · exact h1
   · exact DiskSame.refl _
 
 theorem replayOne_disk (r : WalRec) (s : Store) : DiskSame s (replayOne r s).1 :=
